@@ -319,7 +319,27 @@ func schemas() []*schema {
 		ins(kInsert, "id,u,v,w", i(3, 7, "c", 1)),
 		setNN,
 	}}
-	return []*schema{s1, s2, s3, s4, s5, s6, s7, s8}
+	// CHECK whose truth depends on a column being NULL; multi-row statements mixing rows that satisfy it with rows that do not
+	s9 := &schema{Name: "S9", DDL: []string{"CREATE TABLE t(id INTEGER, k INTEGER, e INTEGER, PRIMARY KEY id, CHECK (k = 0 OR e IS NOT NULL))"},
+		Check: func(r row) (bool, bool) {
+			k, ok := r["k"].(int64)
+			if !ok {
+				return false, false // k NULL: the expression is NULL, no expectation
+			}
+			return k == 0 || r["e"] != nil, true
+		},
+		Ops: []op{
+			ins(kInsert, "id,k,e", i(1, 1, 7)),
+			ins(kInsert, "id,k,e", i(2, 1, nil)),               // CHECK violation
+			ins(kInsert, "id,k,e", i(2, 1, 7), i(3, 1, nil)),   // second row violates: nothing may be inserted
+			ins(kInsert, "id,k,e", i(4, 0, nil), i(5, 1, nil)), // second row violates
+			ins(kInsert, "id,k,e", i(6, 0, nil), i(7, 1, 8)),   // both fine
+			ins(kUpsert, "id,k,e", i(1, 1, 9), i(2, 1, nil)),   // second row violates
+			upd("U(id=1:e=NULL)", "UPDATE t SET e = NULL WHERE id = 1", whereEq("id", int64(1)), setCol("e", nil), "id", "e"),
+			upd("U(*:k=1)", "UPDATE t SET k = 1", func(row) bool { return true }, setCol("k", int64(1)), "k"),
+			del("D(id=1)", "DELETE FROM t WHERE id = 1", whereEq("id", int64(1)), "id"),
+		}}
+	return []*schema{s1, s2, s3, s4, s5, s6, s7, s8, s9}
 }
 
 // ---------------------------------------------------------------- database under test
